@@ -300,15 +300,30 @@ func headersFromContext(ctx context.Context) []*goatorepo.KeyValue {
 		h = append(h, internal.ToKeyValue(md)...)
 	}
 	if deadline, ok := ctx.Deadline(); ok {
-		timeout := time.Until(deadline)
-		ms := int64(timeout / time.Millisecond)
-		if ms <= 0 {
-			ms = 1
-		}
 		h = append(h, &goatorepo.KeyValue{
 			Key:   "GRPC-Timeout",
-			Value: fmt.Sprintf("%dm", ms),
+			Value: encodeGrpcTimeout(time.Until(deadline)),
 		})
 	}
 	return h
+}
+
+// encodeGrpcTimeout renders a timeout for the wire: rounded down, at least one
+// millisecond, and - a TimeoutValue has at most eight digits - in milliseconds
+// only while they fit, then in the finest unit that does.
+func encodeGrpcTimeout(timeout time.Duration) string {
+	const maxValue = 99999999
+	if timeout < time.Millisecond {
+		return "1m"
+	}
+	if v := int64(timeout / time.Millisecond); v <= maxValue {
+		return fmt.Sprintf("%dm", v)
+	}
+	if v := int64(timeout / time.Second); v <= maxValue {
+		return fmt.Sprintf("%dS", v)
+	}
+	if v := int64(timeout / time.Minute); v <= maxValue {
+		return fmt.Sprintf("%dM", v)
+	}
+	return fmt.Sprintf("%dH", int64(timeout/time.Hour))
 }
